@@ -508,8 +508,23 @@ class Registry:
             fdef = source.find_def(rel, qualname)
             return inline_call(ev, c, fdef, args, kwargs, node, caller_first=True)
         if c is None:
-            raise Unsupported("%s (line %s): call of %s:%s which has no contract" % (
-                ev.frame.relpath, getattr(node, "lineno", 0), rel, qualname))
+            # a repository function without a contract (e.g. a helper a refactoring has just extracted): its body is executed
+            # at the call site, in the caller's model - exact, so never a source of alarms; what the executor cannot handle in
+            # it (a loop without invariant, an unsupported construct) leaves the path undecided as before
+            fdef = source.find_def(rel, qualname)
+            depth = ev.st.run.counters.get(("auto-inline", "depth"), 0)
+            if fdef is None or ev.pure or depth >= 6 or any(isinstance(n_, (ast.Yield, ast.YieldFrom)) for n_ in ast.walk(fdef)):
+                raise Unsupported("%s (line %s): call of %s:%s which has no contract" % (
+                    ev.frame.relpath, getattr(node, "lineno", 0), rel, qualname))
+            cls_name = qualname.rsplit(".", 1)[0] if "." in qualname else None
+            auto = Contract(id="auto-inlined:%s:%s" % (rel, qualname), file=rel, qualname=qualname, inline=True, cls=cls_name,
+                            notes="no contract: executed inline at its call sites")
+            AUTO_INLINED.add(auto.id)
+            ev.st.run.counters[("auto-inline", "depth")] = depth + 1
+            try:
+                return inline_call(ev, auto, fdef, args, kwargs, node, caller_first=True)
+            finally:
+                ev.st.run.counters[("auto-inline", "depth")] = depth
         fdef = source.find_def(rel, qualname)
         if c.inline:
             return inline_call(ev, c, fdef, args, kwargs, node)
@@ -621,6 +636,9 @@ class Registry:
         if c is None:
             return None
         return [], set(c.ghost_modifies)
+
+
+AUTO_INLINED = set()
 
 
 def inline_call(ev, c, fdef, args, kwargs, node, caller_first=False):
